@@ -422,6 +422,7 @@ type rnode struct {
 	lastRedo   time.Time
 	redoCur    int
 	redoN      map[int64]int
+	prevLock   [2]string
 }
 
 func newRnode(nw *netw, idx int) *rnode {
@@ -482,6 +483,7 @@ func (r *rnode) start() (consensus.VerifState, string) {
 		return consensus.VerifState{}, "Start failed: " + err.Error()
 	}
 	r.down = false
+	r.prevLock = [2]string{"-1", ""}
 	return r.after(t0), ""
 }
 
